@@ -972,7 +972,11 @@ def _positional_array(t, depth=0, fl=None):
     if t[0] == "call" and t[2][0] == "ext" and t[2][1] in ("networkx.floyd_warshall_numpy", "networkx.to_numpy_array", "networkx.adjacency_matrix",
                                                          "networkx.to_numpy_matrix", "networkx.laplacian_matrix"):
         return True
-    cw = is_call(t, "numpy.where", "numpy.sqrt", "numpy.abs", "numpy.square", "numpy.asarray", "numpy.triu", "numpy.tril")
+    # quotient / remainder arrays: numpy.divmod(A, k)[i]
+    if t[0] == "sub" and t[2][0] == "const" and is_call(t[1], "numpy.divmod") and is_call(t[1], "numpy.divmod")[0]:
+        return _positional_array(is_call(t[1], "numpy.divmod")[0][0], depth + 1, fl)
+    cw = is_call(t, "numpy.where", "numpy.sqrt", "numpy.abs", "numpy.square", "numpy.asarray", "numpy.triu", "numpy.tril", "numpy.floor_divide", "numpy.mod",
+                 "numpy.remainder", "numpy.floor", "numpy.ceil", "numpy.power", "numpy.multiply", "numpy.add")
     if cw and cw[0]:
         return any(_positional_array(x, depth + 1, fl) for x in cw[0])
     if t[0] == "cmp":
